@@ -253,6 +253,9 @@ func MakeAF(kind string, idx int) *astits.PacketAdaptationField {
 	case "extss":
 		return &astits.PacketAdaptationField{HasAdaptationExtensionField: true, AdaptationExtensionField: &astits.PacketAdaptationExtensionField{
 			HasSeamlessSplice: true, SpliceType: 5, DTSNextAccessUnit: cr(0x0_8765_4321, 0)}}
+	case "extss0": // the zero value of a field next to its presence flag: splice_type 0 is a splice type like any other
+		return &astits.PacketAdaptationField{HasAdaptationExtensionField: true, AdaptationExtensionField: &astits.PacketAdaptationExtensionField{
+			HasSeamlessSplice: true, SpliceType: 0, DTSNextAccessUnit: cr(0x1_0f0f_0f0f, 0)}}
 	case "ext":
 		return &astits.PacketAdaptationField{HasAdaptationExtensionField: true, AdaptationExtensionField: &astits.PacketAdaptationExtensionField{
 			HasLegalTimeWindow: true, LegalTimeWindowIsValid: true, LegalTimeWindowOffset: 0x1234,
